@@ -1,2 +1,320 @@
-// stub created by the lead so that the workspace always loads; replace it with the check
-fn main() {}
+//! C07 — validating resolver: Secure implies an unbroken chain to a trust anchor.
+//!
+//! E-FAULT over simulated hierarchies served by the real signing/server code behind a scripted
+//! honest recursive upstream (vsec::hier). See hiers.rs (hierarchies + ground truth), faults.rs
+//! (fault alphabet) and oracle.rs (ground-truth oracle).
+
+mod faults;
+mod hiers;
+mod oracle;
+
+use std::collections::{BTreeMap, BTreeSet, HashSet};
+use std::sync::{Arc, Mutex};
+
+use hickory_proto::op::{Message, Query};
+use hickory_proto::rr::{Name, RecordType};
+use serde_json::{json, Value};
+use vcore::{fnv64, Ctx, Local};
+use vsec::upstream::{key_of, Key};
+
+use faults::{Fault, Move, Script};
+use hiers::{Hier, Status};
+use oracle::{judge, run_case, Outcome};
+
+struct Target {
+    hier: Arc<Hier>,
+    q: (Name, RecordType),
+    honest_answer: Message,
+    /// upstream queries observed so far (closure) with their honest answers
+    positions: Vec<(Key, Message)>,
+    singles: Vec<Fault>,
+}
+
+fn name_of(k: &Key) -> Name {
+    Name::from_ascii(&k.0).unwrap()
+}
+
+fn posclass(t: &Target, k: &Key) -> String {
+    let qk = key_of(&t.q.0, t.q.1);
+    let ty = RecordType::from(k.1);
+    if *k == qk {
+        return "query".into();
+    }
+    let apex = t.hier.h.zone_for(&t.q.0, t.q.1).map(|z| t.hier.h.zones[z].origin.clone()).unwrap_or_else(Name::root);
+    let n = name_of(k);
+    let rel = if n == t.q.0 {
+        "qname"
+    } else if n == apex {
+        "zone-apex"
+    } else if n.zone_of(&apex) {
+        "ancestor"
+    } else if apex.zone_of(&n) {
+        "in-zone"
+    } else {
+        "elsewhere"
+    };
+    format!("{ty}@{rel}")
+}
+
+fn scene(t: &Target, faults: &[Fault]) -> String {
+    let mut v: Vec<String> = faults.iter().map(|f| format!("{}@{}", f.kind_tag(), posclass(t, f.q()))).collect();
+    v.sort();
+    v.join(" + ")
+}
+
+fn case_json(t: &Target, faults: &[Fault], out: &Outcome) -> Value {
+    json!({
+        "hierarchy": t.hier.h.name,
+        "query": {"name": t.q.0.to_ascii(), "type": u16::from(t.q.1)},
+        "faults": faults.iter().map(|f| f.to_json()).collect::<Vec<_>>(),
+        "observed": format!("{out:?}").chars().take(1500).collect::<String>(),
+    })
+}
+
+/// Execute + judge one case; returns (log, finding clauses).
+fn exec(t: &Target, faults: &[Fault], rt: &tokio::runtime::Runtime, l: &mut Local, attributed: Option<&HashSet<(String, Fault)>>) -> (Vec<Key>, Vec<String>) {
+    let run = run_case(&t.hier, &t.q, faults, rt);
+    l.eval();
+    if run.inapplicable {
+        l.outcome("fault-not-applicable-as-described");
+    }
+    let j = judge(&t.hier, &t.q, &t.honest_answer, &run.outcome);
+    l.outcome(&j.class);
+    for o in &j.obs {
+        l.outcome(o);
+    }
+    // non-trivial: the fault changed what the validator saw in a response it consumed and the
+    // outcome differs from the honest one, or is still accepted
+    l.nontrivial(fnv64(format!("{}|{:?}|{:?}", t.hier.h.name, t.q, faults).as_bytes()));
+    let mut clauses = vec![];
+    for f in &j.findings {
+        clauses.push(f.clause.clone());
+        // a pair that contains a single fault which alone violates the same clause is attributed
+        // to that single (its key), not reported under a pair scene
+        let minimal: Vec<Fault> = match attributed {
+            Some(set) if faults.len() > 1 => match faults.iter().find(|x| set.contains(&(f.clause.clone(), (*x).clone()))) {
+                Some(single) => vec![single.clone()],
+                None => faults.to_vec(),
+            },
+            _ => faults.to_vec(),
+        };
+        let key = format!("{}|{}", f.clause, scene(t, &minimal));
+        if !l.has_violation_key(&key) {
+            // determinism: a violating case must reproduce
+            let again = run_case(&t.hier, &t.q, faults, rt);
+            if again.outcome != run.outcome {
+                l.violation("nondeterministic-case", "a violating case gave a different outcome when run twice", || case_json(t, faults, &run.outcome));
+            }
+        }
+        l.violation(&key, &f.what, || case_json(t, &minimal, &run.outcome));
+    }
+    (run.log, clauses)
+}
+
+fn load_honest(t: &Target, k: &Key, rt: &tokio::runtime::Runtime) -> Message {
+    let q = Query::new(name_of(k), RecordType::from(k.1));
+    let b = rt.block_on(t.hier.h.honest(&q));
+    Message::from_vec(&b).expect("honest answer decodes")
+}
+
+fn main() {
+    let ctx = Ctx::from_args("C07", "fault_enumeration");
+    let thorough = !ctx.quick();
+    let rt = vsim::rt();
+
+    if let Some((_key, case)) = ctx.replay_case() {
+        let hier = Arc::new(hiers::build(case["hierarchy"].as_str().unwrap_or_else(|| vcore::machinery_exit("replay: no hierarchy"))));
+        let q = (Name::from_ascii(case["query"]["name"].as_str().unwrap()).unwrap(), RecordType::from(case["query"]["type"].as_u64().unwrap() as u16));
+        let faults: Vec<Fault> = case["faults"].as_array().unwrap().iter().map(|f| Fault::from_json(f).unwrap_or_else(|| vcore::machinery_exit("replay: bad fault"))).collect();
+        let honest = run_case(&hier, &q, &[], &rt);
+        let mut t = Target { hier, q, honest_answer: Message::query(), positions: vec![], singles: vec![] };
+        let _ = honest;
+        t.honest_answer = load_honest(&t, &key_of(&t.q.0, t.q.1), &rt);
+        ctx.with_local(|l| {
+            let (_, clauses) = exec(&t, &faults, &rt, l, None);
+            eprintln!("replayed: clauses {clauses:?}");
+        });
+        ctx.finish(false);
+    }
+
+    ctx.set_rule(
+        "hierarchies (real InMemoryZoneHandler zones signed by the real code, honest recursive upstream): see coverage.hierarchies; \
+         queries per hierarchy: existing A, NODATA, NXDOMAIN, wildcard, DS, DNSKEY, NS (+ one in the neighbouring zone). Positions = \
+         closure of the upstream queries observed in the honest run and under every single fault. (L1) at every record of every \
+         position: drop, flip one RDATA bit, replace RDATA, change owner, raise TTL, strip the RRset's RRSIGs, re-sign the RRset with \
+         {sibling-zone key, child-zone key, ancestor key, attacker key + injected DNSKEY, attacker zone atk., key of an insecure zone}; \
+         (L2) at every position: forge-unsigned, forge-signed-by K, forge unsupported-algorithm DS, strip answer/authority/both, \
+         rcode := 0/2/3, replace-by-denial(R) for R in {SOA,NS,A,NSEC,NSEC3,DS,DNSKEY} x owner {qname, zone apex, parent apex, name in \
+         an insecure zone, name in a secure sibling} x {unsigned, genuine, attacker-signed}. All singles; pairs = (payload move at the \
+         validator's query) x (every L2 move [thorough: and every L1 fault] at every other position). Oracle: ground truth in the \
+         published zones (oracle.rs). distinct_nontrivial = distinct (hierarchy, query, fault script) executed.",
+    );
+    ctx.assume("ring signature primitives; the published zone contents and the DS/DNSKEY links computed from them (hiers.rs::status) are the ground truth");
+    ctx.assume("an attacker may hold the keys of sibling / child / insecure zones and fresh keys, not of an ancestor of the target (ancestor-key cases are logged, not judged)");
+    ctx.assume("faults that leave the outcome Secure with published data signed by the record's own zone are not violations");
+
+    // ---- A/B: hierarchies, honest runs (vacuity guard)
+    let mut targets: Vec<Target> = vec![];
+    let mut hier_names = vec![];
+    for name in hiers::names(thorough) {
+        let hier = Arc::new(hiers::build(name));
+        hier_names.push(name);
+        for q in hier.queries.clone() {
+            let honest = run_case(&hier, &q, &[], &rt);
+            let mut t = Target { hier: hier.clone(), q: q.clone(), honest_answer: Message::query(), positions: vec![], singles: vec![] };
+            t.honest_answer = load_honest(&t, &key_of(&q.0, q.1), &rt);
+            let j = judge(&hier, &q, &t.honest_answer, &honest.outcome);
+            let st = hier.status(&q.0, q.1);
+            let positive = !t.honest_answer.answers.is_empty();
+            let want = match (st, positive) {
+                (Status::Secure, true) => "ok:secure",
+                (Status::Secure, false) => "ok:negative-secure",
+                (Status::Insecure, true) => "ok:insecure",
+                (Status::Insecure, false) => "ok:negative-insecure",
+            };
+            if j.class != want || !j.findings.is_empty() {
+                ctx.machinery_failure(&format!("honest run of {} {} {} is {} (findings {:?}), published status demands {}", name, q.0, q.1, j.class, j.findings, want));
+                continue;
+            }
+            ctx.with_local(|l| l.outcome(&format!("honest:{want}")));
+            let mut seen = BTreeSet::new();
+            for k in honest.log {
+                if seen.insert(k.clone()) {
+                    let m = load_honest(&t, &k, &rt);
+                    t.positions.push((k, m));
+                }
+            }
+            targets.push(t);
+        }
+    }
+    ctx.set("hierarchies", json!(hier_names));
+    ctx.set("targets", json!(targets.len()));
+
+    // ---- C: closure over single faults
+    let mut single_viol: HashSet<(String, Fault)> = HashSet::new();
+    let mut done_positions: Vec<usize> = vec![0; targets.len()];
+    let mut n_singles = 0u64;
+    for round in 0..6 {
+        // enumerate singles at the not yet expanded positions
+        let mut work: Vec<(usize, Fault)> = vec![];
+        for (ti, t) in targets.iter_mut().enumerate() {
+            let probe = Script::new(t.hier.clone(), vec![]);
+            let mut new = vec![];
+            for (k, m) in &t.positions[done_positions[ti]..] {
+                let q = Query::new(name_of(k), RecordType::from(k.1));
+                new.extend(faults::singles_at(&probe, &q, m));
+            }
+            done_positions[ti] = t.positions.len();
+            for f in &new {
+                work.push((ti, f.clone()));
+            }
+            t.singles.extend(new);
+        }
+        if work.is_empty() {
+            break;
+        }
+        n_singles += work.len() as u64;
+        let new_keys: Mutex<Vec<(usize, Key)>> = Mutex::new(vec![]);
+        let viol: Mutex<Vec<(String, Fault)>> = Mutex::new(vec![]);
+        let tg = &targets;
+        ctx.par_run_init(
+            work.len() as u64,
+            16,
+            |_| vsim::rt(),
+            |i, l, rt| {
+                let (ti, f) = &work[i as usize];
+                let t = &tg[*ti];
+                let (log, clauses) = exec(t, std::slice::from_ref(f), rt, l, None);
+                for k in log {
+                    if !t.positions.iter().any(|(p, _)| *p == k) {
+                        new_keys.lock().unwrap().push((*ti, k));
+                    }
+                }
+                for c in clauses {
+                    viol.lock().unwrap().push((c, f.clone()));
+                }
+            },
+        );
+        single_viol.extend(viol.into_inner().unwrap());
+        let mut nk = new_keys.into_inner().unwrap();
+        nk.sort();
+        nk.dedup();
+        ctx.set(&format!("closure_round_{round}_new_positions"), json!(nk.len()));
+        for (ti, k) in nk {
+            let m = load_honest(&targets[ti], &k, &rt);
+            targets[ti].positions.push((k, m));
+        }
+    }
+    ctx.set("single_faults", json!(n_singles));
+    ctx.set("positions", json!(targets.iter().map(|t| t.positions.len()).sum::<usize>()));
+
+    // ---- D: pairs = payload move at the validator's query x a fault at another position
+    let mut pairs: Vec<(usize, Fault, Fault)> = vec![];
+    let mut cut_targets = 0;
+    for (ti, t) in targets.iter().enumerate() {
+        let qk = key_of(&t.q.0, t.q.1);
+        // quick tier: pairs for the positive A, DS and DNSKEY queries of every hierarchy
+        let first_of_hier = t.hier.queries.iter().position(|q| *q == t.q).unwrap_or(0);
+        if !thorough && ![0usize, 4, 5].contains(&first_of_hier) {
+            cut_targets += 1;
+            continue;
+        }
+        let firsts: Vec<&Fault> = t
+            .singles
+            .iter()
+            .filter(|f| *f.q() == qk)
+            .filter(|f| matches!(f, Fault::Resp { mv: Move::ForgeUnsigned | Move::ForgeSignedBy(_) | Move::StripAnswer | Move::StripAuthority | Move::StripBoth, .. }))
+            .collect();
+        for a in firsts {
+            for b in t.singles.iter().filter(|f| *f.q() != qk) {
+                let ok = match b {
+                    Fault::Resp { mv: Move::Denial { signed, .. }, .. } => thorough || *signed != faults::Signedness::Attacker,
+                    Fault::Resp { .. } => true,
+                    Fault::Rec { .. } => thorough,
+                };
+                if ok {
+                    pairs.push((ti, a.clone(), b.clone()));
+                }
+            }
+        }
+    }
+    ctx.set("pair_faults", json!(pairs.len()));
+    if !thorough {
+        ctx.cap(&format!(
+            "quick tier: pairs only for the positive-A, DS and DNSKEY queries ({} of {} targets skipped for pairs), second fault = L2 moves without attacker-signed denial records; no L1xL2 pairs, no triples",
+            cut_targets,
+            targets.len()
+        ));
+    } else {
+        ctx.cap("thorough tier: pairs are (forge/strip move at the validator's query) x (any single fault elsewhere); general L2xL2 pairs and triples are not enumerated");
+    }
+    let tg = &targets;
+    let sv = &single_viol;
+    ctx.par_run_init(
+        pairs.len() as u64,
+        16,
+        |_| vsim::rt(),
+        |i, l, rt| {
+            let (ti, a, b) = &pairs[i as usize];
+            exec(&tg[*ti], &[a.clone(), b.clone()], rt, l, Some(sv));
+        },
+    );
+
+    // ---- vacuity: the enumeration must have produced every outcome class
+    for c in ["error", "ok:secure", "ok:bogus"] {
+        if ctx.outcome_count(c) == 0 {
+            ctx.machinery_failure(&format!("vacuous: outcome class {c} never observed"));
+        }
+    }
+    let mut per_clause: BTreeMap<String, u64> = BTreeMap::new();
+    for (c, _) in &single_viol {
+        *per_clause.entry(c.clone()).or_insert(0) += 1;
+    }
+    ctx.set("violating_single_faults_per_clause", json!(per_clause));
+    ctx.with_local(|l| {
+        for t in targets.iter().step_by(7) {
+            l.sample(json!({"hierarchy": t.hier.h.name, "query": format!("{} {}", t.q.0, t.q.1), "positions": t.positions.iter().map(|p| format!("{} {}", p.0 .0, RecordType::from(p.0 .1))).collect::<Vec<_>>(), "single_faults": t.singles.len()}));
+        }
+    });
+    ctx.finish(true);
+}
